@@ -110,7 +110,7 @@ func cmdCheck(args []string) {
 		os.Exit(2)
 	}
 	if *timeout == 0 {
-		*timeout = 40 * time.Second
+		*timeout = 60 * time.Second
 		if *tier == "thorough" {
 			*timeout = 120 * time.Second
 		}
